@@ -74,4 +74,34 @@ def inverseOffsets : List (Axis Rat) → List (Axis Rat) → Except ShiftErr (Li
       | .ok ks => .ok (k :: ks)
   | _, _ => .ok []
 
+/-! ### `_offset_from_spaces` AS CODED: `np.around` and `np.isclose` with their tolerances -/
+
+/-- `|q|` -/
+def ratAbs (q : Rat) : Rat := if q < 0 then -q else q
+
+/-- `np.around` on one number: nearest integer, ties to the even one. -/
+def roundHalfEven (q : Rat) : Int :=
+  let f := q.floor
+  let r := q - (f : Rat)
+  if r < 1 / 2 then f else if 1 / 2 < r then f + 1 else if f % 2 = 0 then f else f + 1
+
+/-- `np.isclose(a, b, rtol, atol)`: `|a - b| <= atol + rtol * |b|`. -/
+def isClose (rtol atol a b : Rat) : Bool := decide (ratAbs (a - b) ≤ atol + rtol * ratAbs b)
+
+/-- One axis of `_offset_from_spaces` statement by statement, the tolerances of `np.isclose`
+as parameters (NumPy's defaults are `rtol = 1e-5`, `atol = 1e-8`): `offset_float` =
+`shiftCells`, `offset = np.around(offset_float)`; affected axis: not close → "non-multiple",
+outside `[0, |n_ran - n_dom|]` → "not contained"; unaffected axis: `offset_float` not close to
+`0` → "shifted although unchanged", offset 0.  (`np.isfinite(offset_float)` holds for a
+non-zero cell side.) -/
+def offsetFromAxesTol (rtol atol : Rat) (dom ran : Axis Rat) : Except ShiftErr Nat :=
+  let s := shiftCells dom ran
+  let k := roundHalfEven s
+  if dom.n ≠ ran.n then
+    if ¬ isClose rtol atol (k : Rat) s then .error .notMultiple
+    else if k < 0 ∨ k > ((ran.n : Int) - dom.n).natAbs then .error .notContained
+    else .ok k.toNat
+  else if ¬ isClose rtol atol s 0 then .error .shiftedUnchanged
+  else .ok 0
+
 end OdlModel.Resize
